@@ -20,6 +20,18 @@ Streams (model = lean/JediModel/Model/Call.lean through Drivers/C11.lean)
                Signature.params/.to_string() vs `processParamsKw` + `calleeParams`
   pyaccepts    `pyAccepts`, `pyRunsKwWrapper`, `kwForwarded` vs real calls
   doc          docstring() vs `docAssemble`
+  doclit       parser_utils.clean_scope_docstring on a real parso funcdef whose first statement is a
+               generated string literal vs `DocLit.cleanDocstringLiteral` (given the type
+               ast.literal_eval yields): which literals are docstrings
+  pyprefix     `legalPrefixes` / `pyIsDocstring` / `pyEvald` (Python side of docstring_literal_decision)
+               vs CPython's compiler on every prefix candidate over {b,r,u,f,B,R,U,F} up to length 3
+  oracle:doclit  the docstring clause on systematically generated literals (gen/c11_doclits.py:
+               25 prefixes x 4 quote styles x first characters over letters / digits / punctuation /
+               whitespace / escapes / non-ASCII, prefix-lookalike bodies, one-line and multi-line)
+               in 14 definition kinds (module, function, async, one-line, class, __init__, method,
+               static/classmethod, nested) through get_names / get_context / infer / goto / help /
+               get_signatures / complete; oracle = inspect.getdoc + inspect.signature of the
+               executed object (props/c11_doc.py, fresh-interpreter workers)
   oracle:*     the property itself on the real code: exec the definition, inspect.signature,
                re-parse of to_string(), real calls with a sentinel argument, inspect.getdoc;
                oracle:kwforward = exactly the calls that bind against the reported signature of a
@@ -34,7 +46,7 @@ import json
 import common
 from common import short
 
-MODELS = ['Call']
+MODELS = ['Call', 'DocLit']
 MANIFEST = dict(
     text='Theorems over the model of _ActualTreeParamName.get_kind, _SignatureMixin.to_string, '
          'TreeSignature.get_param_names (process_params without forwarding and with **kwargs forwarded one level, '
@@ -50,14 +62,19 @@ MANIFEST = dict(
          'calculate_index = CPython call binding for every '
          'well-formed prefix ending in a non-name positional or `name=` argument (partial: hypotheses H1/H2 '
          'with kernel-checked counter-witnesses = known findings F17/F18), exact characterisation of the '
-         'remaining cells (bare-name prefix, after *e), docstring assembly. Tie: translator constants + '
+         'remaining cells (bare-name prefix, after *e), docstring assembly; which string token is a docstring: '
+         'for every legal prefix x quote style x ANY body `_clean_docstring_literal` decides like Python (no b, no f '
+         'in the prefix) and never looks at the body (docstring_literal_decision / _body_irrelevant, slice length '
+         'and letters read from safe_literal_eval by the translator). Tie: translator constants + '
          'correspondence on real parso trees and real jedi objects; direct oracle executes the definition, '
          'uses inspect.signature, re-parses to_string(), performs real calls with sentinel arguments, '
          'inspect.getdoc.',
     note='Modelled not verified: parso (the node list handed to _iter_arguments is checked per case), '
          'inference of the callee (which definition a call resolves to; for forwarding: which calls '
          '_iter_nodes_for_param finds and what they resolve to - checked per case by stream forward), process_params '
-         'with *args forwarding (RecursionError in this sandbox: empty typeshed; probe stream oracle:wrapper only), inspect.cleandoc/literal_eval in docstring cleaning (oracle-only).',
+         'with *args forwarding (RecursionError in this sandbox: empty typeshed; probe stream oracle:wrapper only), '
+         'inspect.cleandoc / the value ast.literal_eval yields (only its type enters the model; the text is checked by '
+         'the direct oracle against inspect.getdoc of the executed definition), parso\'s get_doc_node.',
     technique='Lean 4 proof over hand-written model + translator-generated constants + differential correspondence',
     design='5.C11')
 LEAN_TARGETS = ['JediModel.Props.C11', 'JediModel.Drivers.C11']
@@ -1076,6 +1093,220 @@ def stream_docs(ctx, reqs, metas):
             metas.append(('doc', case, whole))
 
 
+
+# ------------------------------------------------------------------ stream: docstring literals
+
+DOCLIT_HOW = ('props/c11_doc.py:eval_program on the replay input: exec the definitions, '
+              'jedi.Script(source).<way>(...) -> .docstring(raw=True) / .docstring() vs inspect.getdoc / '
+              'inspect.signature of the executed object;  ./check C11 --replay <this file>')
+
+
+def _lit_dict(lit):
+    """classification of a corpus literal given as text"""
+    i = 0
+    while i < len(lit) and lit[i] not in '\'"':
+        i += 1
+    quote = lit[i:i + 3] if lit[i:i + 3] in ("'''", '"""') else lit[i:i + 1]
+    return {'lit': lit, 'prefix': lit[:i], 'quote': quote, 'first_tag': 'corpus', 'first': '', 'multi': '\n' in lit}
+
+
+def doclit_literals(ctx):
+    import glob
+    import os
+    from gen import c11_doclits as DL
+    lits = []
+    for p in sorted(glob.glob(os.path.join(common.CORPUS_DIR, 'C11', '*.json'))):
+        with open(p, encoding='utf-8') as f:
+            for lit in json.load(f).get('doclits', []):
+                if DL.literal_ok(lit):
+                    lits.append(_lit_dict(lit))
+    seen = {d['lit'] for d in lits}
+    lits += [d for d in DL.literals(ctx.subrng('doclit'), ctx.quick) if d['lit'] not in seen]
+    return lits
+
+
+class _Background:
+    """a call in a thread; used for common.parallel_map (fresh-interpreter workers evaluate the
+    docstring programs) and for the Lean driver on the docstring-literal requests, both of which
+    only wait for subprocesses while this process runs the other streams"""
+
+    def __init__(self, fn, items=None):
+        import threading
+        self.items = items
+        self.res = None
+        self.err = None
+
+        def work():
+            try:
+                self.res = fn()
+            except BaseException as e:  # noqa
+                self.err = e
+        self.t = threading.Thread(target=work, daemon=True)
+        self.t.start()
+
+    def join(self):
+        self.t.join()
+        if self.err is not None:
+            raise self.err if isinstance(self.err, common.InfraError) else common.InfraError(repr(self.err))
+        return self.res
+
+
+def doclit_start(ctx, lits):
+    from gen import c11_doclits as DL
+    items = DL.programs(lits, ctx.seed % DL.NSLOTS)
+    return _Background(lambda: common.parallel_map('props.c11_doc', 'eval_program', items, jobs=14), items)
+
+
+def _doclit_case(item, r):
+    tr = [t for t in item['trailer'] if t['slot'] == r['slot']]
+    feature = 'signature-docstring-of-classmethod' if (r['way'], r['kind']) == ('signatures', 'classmethod') \
+        else 'literal'
+    return {'source': item['source'], 'way': r['way'], 'slot': r['slot'], 'kind': r['kind'],
+            'line': r['line'], 'column': r['column'], 'literal': r.get('lit'), 'feature': feature,
+            'exec_len': item['exec_len'], 'trailer': tr, 'kinds': item['kinds']}
+
+
+def _doclit_item_of_case(case):
+    return {'source': case['source'], 'exec_len': case['exec_len'], 'trailer': case['trailer'],
+            'kinds': case['kinds'], 'slots': [{'slot': case['slot'], 'lit': case.get('literal')}],
+            'only': {'way': case['way'], 'slot': case['slot']}}
+
+
+def _doclit_minimise(item, r):
+    """the failing literal alone in its slot (every other slot `pass`): smaller replay if it still fails"""
+    from gen import c11_doclits as DL
+    from props import c11_doc
+    if r.get('lit') is None:
+        return item, r
+    keys = [k[0] for k in DL.SLOTS]
+    slots = [None] * DL.NSLOTS
+    slots[keys.index(r['slot'])] = {'lit': r['lit']}
+    small = DL.programs_from_slots(slots)
+    small['only'] = {'way': r['way'], 'slot': r['slot']}
+    try:
+        recs = [x for x in c11_doc.eval_program(small) if x['fails']]
+    except Exception:  # noqa
+        return item, r
+    for x in recs:
+        if [f[0] for f in x['fails']] == [f[0] for f in r['fails']]:
+            return small, x
+    return item, r
+
+
+def doclit_finish(ctx, bg, lits):
+    results = bg.join()
+    grid = ctx.hist.setdefault('doclit-literal-grid', {})
+    for d in lits:
+        k = '%s/%s/%s' % (d['prefix'].lower() or '-', d['quote'], d['first_tag'])
+        grid[k] = grid.get(k, 0) + 1
+    minimised = 0
+    for item, recs in zip(bg.items, results):
+        for r in recs:
+            st = r['status']
+            if st.startswith('unjudged'):
+                ctx.count('oracle:doclit-unjudged', None, nontrivial=False,
+                          bucket='%s/%s/%s' % (r['way'], r['kind'], st[9:80]))
+                continue
+            ctx.count('oracle:doclit', (r.get('lit'), r['way'], r['kind']), nontrivial=r.get('lit') is not None,
+                      bucket='%s/%s' % (r['way'], r['kind']),
+                      sample={'literal': r.get('lit'), 'way': r['way'], 'kind': r['kind'], 'raw': r.get('raw')})
+            if not r['fails']:
+                continue
+            it, rr = item, r
+            if minimised < 4 and ctx.match_known('oracle:doclit', _doclit_case(item, r), r['fails'][0][2]) is None:
+                minimised += 1
+                it, rr = _doclit_minimise(item, r)
+            case = _doclit_case(it, rr)
+            for what, exp, obs in rr['fails']:
+                ctx.fail('oracle:doclit', what, case, expected=exp, observed=obs, how=DOCLIT_HOW)
+
+
+def _py_literal_facts(lit):
+    """(type ast.literal_eval yields: str | bytes | notLiteral, the value)"""
+    import ast
+    import warnings
+    with warnings.catch_warnings():
+        warnings.simplefilter('ignore')
+        node = ast.parse(lit, mode='eval').body
+    if isinstance(node, ast.Constant) and isinstance(node.value, str):
+        return 'str', node.value
+    if isinstance(node, ast.Constant) and isinstance(node.value, bytes):
+        return 'bytes', None
+    return 'notLiteral', None
+
+
+def stream_doclit_model(ctx, lits, reqs, metas):
+    """the real decision (clean_scope_docstring on a real parso funcdef) for every generated literal;
+    compared with the Lean model in run()"""
+    import warnings
+    import parso
+    from jedi import parser_utils
+    grammar = parso.load_grammar()
+    for d in lits:
+        lit = d['lit']
+        src = 'def f():\n    %s\n' % lit
+        fd = next(grammar.parse(src).iter_funcdefs())
+        node = fd.get_doc_node()
+        ev, value = _py_literal_facts(lit)
+        if node is None or node.value != lit:
+            # f-strings are no string leaf for parso (no docstring: what Python says, too)
+            ctx.count('unmodelled', lit, nontrivial=False,
+                      bucket='doclit: get_doc_node finds no such leaf (%s)' % ev)
+            continue
+        try:
+            with warnings.catch_warnings():
+                warnings.simplefilter('ignore')
+                real = parser_utils.clean_scope_docstring(fd)
+        except Exception as e:  # noqa
+            real = {'raises': type(e).__name__}
+        reqs.append({'op': 'doclit', 'value': lit, 'ev': ev})
+        metas.append(('doclit', d, (real, ev, inspect.cleandoc(value) if value is not None else None)))
+
+
+def doclit_search(ctx, d):
+    """failing-input search for a literal on which model and implementation disagree: the property
+    itself (direct oracle) on one-literal programs, the literal in a function, a class and a method"""
+    from gen import c11_doclits as DL
+    from props import c11_doc
+    keys = [k[0] for k in DL.SLOTS]
+    for slot in ('func', 'Klass', 'meth'):
+        slots = [None] * DL.NSLOTS
+        slots[keys.index(slot)] = d
+        item = DL.programs_from_slots(slots)
+        item['ways'] = ['names', 'infer', 'signatures']
+        for r in c11_doc.eval_program(item):
+            if r['slot'] == slot and r['fails']:
+                case = _doclit_case(item, r)
+                for what, exp, obs in r['fails']:
+                    ctx.fail('oracle:doclit', what, case, expected=exp, observed=obs, how=DOCLIT_HOW)
+                return True
+    return False
+
+
+def stream_pyprefix(ctx, reqs, metas):
+    """Python side of docstring_literal_decision against CPython itself: which prefixes the compiler
+    accepts, whether a literal with that prefix becomes `__doc__`, what literal_eval yields"""
+    import warnings
+    letters = 'brufBRUF'
+    cands = [''] + [''.join(t) for n in (1, 2, 3) for t in itertools.product(letters, repeat=n)]
+    for p in cands:
+        lit = p + "'x'"
+        with warnings.catch_warnings():
+            warnings.simplefilter('ignore')
+            try:
+                g = {}
+                exec(compile('def f():\n    %s\n' % lit, '<p>', 'exec'), g)
+                legal = True
+            except SyntaxError:
+                legal = False
+        want = {'legal': legal}
+        if legal:
+            want['docstring'] = g['f'].__doc__ is not None
+            want['evald'] = _py_literal_facts(lit)[0]
+        reqs.append({'op': 'pyprefix', 'prefix': p})
+        metas.append(('pyprefix', {'prefix': p}, want))
+
+
 # ------------------------------------------------------------------ stream: fixed probes
 
 def stream_probes(ctx):
@@ -1334,6 +1565,13 @@ def run_corpus(ctx, cases):
 
 
 def run(ctx):
+    doclits = doclit_literals(ctx)
+    bg = doclit_start(ctx, doclits)
+    # the docstring-literal requests do not depend on anything below: their driver runs meanwhile
+    dreqs, dmetas = [], []
+    stream_doclit_model(ctx, doclits, dreqs, dmetas)
+    stream_pyprefix(ctx, dreqs, dmetas)
+    bgd = _Background(lambda: common.run_driver_parallel('C11', dreqs, jobs=4)) if ctx.model_ok else None
     cases = []
     run_corpus(ctx, cases)
     cases += build_cases(ctx)
@@ -1356,10 +1594,11 @@ def run(ctx):
     stream_star_args_probe(ctx)
     stream_forward(ctx, reqs, metas)
     stream_pyaccepts(ctx, reqs, metas)
+    doclit_finish(ctx, bg, doclits)
     if ctx.model_ok:
         answers = common.run_driver_parallel('C11', reqs)
         parsed_defs = {}
-        for (stream, meta, extra), ans in zip(metas, answers):
+        for (stream, meta, extra), ans in zip(metas + dmetas, answers + bgd.join()):
             if isinstance(ans, dict) and ('error' in ans or 'protocol_error' in ans):
                 raise common.InfraError('driver error: %r' % ans)
             if stream == 'case':
@@ -1402,6 +1641,28 @@ def run(ctx):
                 if ans != extra:
                     raise common.InfraError('pyBound disagrees with inspect.signature of the bound object: '
                                             '%r model=%r inspect=%r' % (meta, ans, extra))
+            elif stream == 'doclit':
+                real, ev, cleaned = extra
+                want = cleaned if ans == 'cleandoc' else '' if ans == 'empty' else None
+                agree = (real == want) if want is not None else isinstance(real, dict)
+                ctx.count('doclit', meta['lit'], nontrivial=bool(cleaned) or ev != 'str',
+                          bucket='%s/%s/%s' % (meta['prefix'].lower() or '-', meta['quote'], ans),
+                          sample={'literal': meta['lit'], 'impl': real, 'model': ans})
+                if not agree:
+                    ctx.tie_broken('correspondence:doclit',
+                                   short({'literal': meta['lit'], 'literal_eval_type': ev, 'impl': real,
+                                          'model': ans, 'model_text': want}, 1500))
+                    doclit_searched = getattr(ctx, '_doclit_searched', 0)
+                    if doclit_searched < 6:
+                        ctx._doclit_searched = doclit_searched + 1
+                        doclit_search(ctx, meta)
+            elif stream == 'pyprefix':
+                ctx.count('pyprefix', meta['prefix'], nontrivial=True,
+                          bucket='legal' if extra['legal'] else 'illegal')
+                got = {k: ans[k] for k in extra}
+                if got != extra:
+                    raise common.InfraError('DocLit Python side disagrees with CPython: prefix %r model=%r cpython=%r'
+                                            % (meta['prefix'], ans, extra))
             elif stream == 'doc':
                 ctx.count('doc', json.dumps(meta, sort_keys=True), nontrivial=True, bucket=meta['feature'])
                 if ans != extra:
@@ -1420,7 +1681,10 @@ def run(ctx):
         'this sandbox (TreeArguments.unpack of `*args` needs the builtins stubs: RecursionError) - probe only',
         'CPython acceptance of a call enters kwforward_accepts_iff_partial as `pyAccepts` / `pyRunsKwWrapper`; '
         'stream pyaccepts compares them with real calls; `pyBound` with inspect.signature (stream pybound)',
-        'docstring cleaning (ast.literal_eval, inspect.cleandoc) is CPython code: oracle only (stream oracle:doc)',
+        'docstring cleaning: the value ast.literal_eval yields and inspect.cleandoc are CPython code - the model '
+        'takes the TYPE literal_eval yields (stream doclit feeds the real one, stream pyprefix checks `pyEvald` / '
+        '`pyIsDocstring` / `legalPrefixes` against the compiler), the text is judged by the direct oracle only '
+        '(streams oracle:doc, oracle:doclit); parso: get_doc_node hands the string leaf of the first statement',
         'single-line calls: `position[1] - name.start_pos[1]` is modelled as a natural number (cut)',
         'CPython call binding enters the theorems as `pyBind`; stream pybind compares it with real calls',
     ]
@@ -1429,15 +1693,43 @@ def run(ctx):
 def replay(ctx, payload):
     import jedi
     inp = payload['input']
+    if payload.get('stream') == 'oracle:doclit':
+        from props import c11_doc
+        recs = c11_doc.eval_program(_doclit_item_of_case(inp))
+        bad = 0
+        for r in recs:
+            print('way=%s kind=%s literal=%s line=%s column=%s' % (r['way'], r['kind'], r.get('lit'), r['line'], r['column']))
+            print('  docstring(raw=True) = %r' % (r.get('raw'),))
+            for what, exp, obs in r['fails']:
+                bad += 1
+                print('  FAILS: %s\n    expected %r\n    observed %r' % (what, exp, obs))
+        print('reproduced' if bad else 'not reproduced: the property holds on this input now')
+        return 1 if bad else 0
     if 'line' in inp:
         for s in jedi.Script(inp['source']).get_signatures(inp['line'], inp['column']):
             print('index=%r bracket_start=%r to_string=%r params=%r' % (
                 s.index, s.bracket_start, s.to_string(), [(p.name, p.kind.name) for p in s.params]))
     elif 'expr' in inp:
         full = inp['source'] + inp['expr']
+        obj, _ = exec_def(inp['source'], inp['expr'])
+        want = inspect.getdoc(obj) or ''
+        if inspect.isclass(obj) and obj.__doc__ is None:
+            want = ''
+        bad = 0
         for d in jedi.Script(full).infer(full.count('\n') + 1, len(inp['expr'])):
-            print('raw=%r' % d.docstring(raw=True))
-            print('docstring=%r' % d.docstring())
+            try:
+                raw = d.docstring(raw=True)
+                print('raw=%r' % raw)
+                print('docstring=%r' % d.docstring())
+            except Exception as e:  # noqa
+                print('docstring() raised %r' % (e,))
+                raw = None
+            bad += raw != want
+        print('inspect.getdoc=%r' % want)
+        print('expected:', payload.get('expected'))
+        print('observed at record time:', payload.get('observed'))
+        print('reproduced' if bad else 'not reproduced')
+        return 1 if bad else 0
     elif 'callee' in inp:
         src = inp['source'] + inp['callee'] + '('
         for s in jedi.Script(src).get_signatures(src.count('\n') + 1, len(inp['callee']) + 1):
